@@ -96,6 +96,12 @@ public:
         FASTOR_ASSERT(src.self().size()==size(), "TENSOR SIZE MISMATCH");
         assign(*this, src.self());
     }
+    // Assigning a map to a map of the same type copies the values (as for tensors) instead of re-seating the pointer
+    constexpr TensorMap(const TensorMap<T,Rest...>&) = default;
+    FASTOR_INLINE TensorMap<T,Rest...>& operator=(const TensorMap<T,Rest...>& src) {
+        assign(*this, src);
+        return *this;
+    }
 
     // AbstractTensor and scalar in-place operators
     //----------------------------------------------------------------------------------------------------------//
